@@ -12,7 +12,8 @@
 //
 // stdin:  {"detect": [hex...], "fetch": [{"ct","payload","status"}], "init": [mediatype...], "digest": [algo...]}
 // stdout: {"detect": [kind...], "fetch": [""|error text...], "init": ["tar"|"dir"|"err"|"none"|"panic"...],
-//          "legacy": "...", "digest": [[sizes]...]}
+//
+//	"legacy": "...", "digest": [[sizes]...]}
 package main
 
 import (
